@@ -8,6 +8,7 @@ package alphabet
 
 import (
 	"fmt"
+	"math"
 	"strings"
 	"testing"
 )
@@ -96,4 +97,105 @@ func TestVerifBounded_C17_Builtins(t *testing.T) {
 		}
 	}
 	fmt.Printf("BOUNDED name=C17.builtins cases=%d nontrivial=%d exhaustive=true domain=%q\n", cases, nontrivial, "7 built-in alphabets x all 256 letter values, plus all indices")
+}
+
+// TestVerifBounded_C18_Tables: all 256 Phred values, all 256 Solexa values (float tables vs exact spec tables,
+// probability round trips, monotonicity). Exhaustive over the finite domains; not a deductive proof.
+func TestVerifBounded_C18_Tables(t *testing.T) {
+	cases, nontrivial := 0, 0
+	ulps := func(a, b float64) float64 {
+		if a == b {
+			return 0
+		}
+		d := math.Abs(a - b)
+		return d / (math.Nextafter(math.Abs(b), math.Inf(1)) - math.Abs(b))
+	}
+	// Phred: p(q) = 10^(-q/10), Ephred(ProbE(q)) == q, monotone
+	for q := 0; q < 254; q++ {
+		cases++
+		nontrivial++
+		p := Qphred(q).ProbE()
+		want := math.Pow(10, -float64(q)/10)
+		if ulps(p, want) > 2 {
+			t.Fatalf("Qphred(%d).ProbE() = %g, want %g", q, p, want)
+		}
+		if got := Ephred(p); got != Qphred(q) {
+			t.Fatalf("Ephred(Qphred(%d).ProbE()) = %d", q, got)
+		}
+		if q > 0 && !(p <= Qphred(q-1).ProbE()) {
+			t.Fatalf("Phred probability not monotone at %d", q)
+		}
+	}
+	// Solexa: p(qs) = 1/(1+10^(qs/10))
+	for qs := -127; qs < 127; qs++ {
+		cases++
+		nontrivial++
+		p := Qsolexa(qs).ProbE()
+		pw := math.Pow(10, -float64(qs)/10)
+		want := pw / (1 + pw)
+		if ulps(p, want) > 4 {
+			t.Fatalf("Qsolexa(%d).ProbE() = %g, want %g", qs, p, want)
+		}
+		if got := Esolexa(p); got != Qsolexa(qs) && p != 1 {
+			t.Fatalf("Esolexa(Qsolexa(%d).ProbE()) = %d", qs, got)
+		}
+		if qs > -127 && !(p <= Qsolexa(qs-1).ProbE()) {
+			t.Fatalf("Solexa probability not monotone at %d", qs)
+		}
+	}
+	// conversions against the exact tables
+	for q := 0; q < 256; q++ {
+		cases++
+		if want := verifSpecPhredSolexa[q]; want != 999 {
+			nontrivial++
+			if got := int(Qphred(q).Qsolexa()); got != want {
+				t.Fatalf("Qphred(%d).Qsolexa() = %d, exact value rounds to %d", q, got, want)
+			}
+		}
+		if want := verifSpecSolexaPhred[q]; want != 999 {
+			nontrivial++
+			if got := int(Qsolexa(q - 128).Qphred()); got != want {
+				t.Fatalf("Qsolexa(%d).Qphred() = %d, exact value rounds to %d", q-128, got, want)
+			}
+		}
+	}
+	// mutually inverse from Q=10 upwards (where both are representable)
+	for q := 10; q <= 126; q++ {
+		cases++
+		nontrivial++
+		if back := Qphred(q).Qsolexa().Qphred(); back != Qphred(q) {
+			t.Fatalf("Phred %d -> Solexa -> Phred = %d", q, back)
+		}
+		if back := Qsolexa(q).Qphred().Qsolexa(); back != Qsolexa(q) {
+			t.Fatalf("Solexa %d -> Phred -> Solexa = %d", q, back)
+		}
+	}
+	// all 7 encodings x all bytes: decode then encode is the identity on the printable range
+	for _, e := range []Encoding{Sanger, Illumina1_3, Illumina1_5, Illumina1_8, Illumina1_9} {
+		for b := 0; b < 256; b++ {
+			cases++
+			q := e.DecodeToQphred(byte(b))
+			lo, hi := 33, 126
+			if e == Illumina1_3 {
+				lo = 64
+			}
+			if e == Illumina1_5 {
+				lo = 66
+			}
+			if b >= lo && b <= hi {
+				nontrivial++
+				if got := q.Encode(e); got != byte(b) {
+					t.Fatalf("encoding %d: Encode(Decode(%d)) = %d", e, b, got)
+				}
+			}
+		}
+	}
+	for b := 59; b <= 126; b++ {
+		cases++
+		nontrivial++
+		if got := Solexa.DecodeToQsolexa(byte(b)).Encode(Solexa); got != byte(b) {
+			t.Fatalf("Solexa: Encode(Decode(%d)) = %d", b, got)
+		}
+	}
+	fmt.Printf("BOUNDED name=C18.tables cases=%d nontrivial=%d exhaustive=true domain=%q\n", cases, nontrivial, "all 256 Phred and Solexa scores, all bytes x 6 encodings; float tables vs exact (mpmath) spec tables")
 }
